@@ -282,7 +282,7 @@ macro_rules! with_dimacs_lit {
 
 /// A literal type of the user's own: the limit of a literal type is what its trait impl says (1000 here), not what its
 /// integer representation could hold.
-#[derive(Copy, Clone, PartialEq, Eq, Debug, Hash)]
+#[derive(Copy, Clone, PartialEq, Eq, Debug, Hash, PartialOrd, Ord, Default)]
 pub struct C1000(pub i16);
 impl flussab_cnf::Dimacs for C1000 {
     const MAX_DIMACS: isize = 1000;
@@ -294,7 +294,7 @@ impl flussab_cnf::Dimacs for C1000 {
     }
 }
 /// The same for AIGER: codes up to 100, i.e. at most 49 variables.
-#[derive(Copy, Clone, PartialEq, Eq, Debug, Hash)]
+#[derive(Copy, Clone, PartialEq, Eq, Debug, Hash, PartialOrd, Ord, Default)]
 pub struct C100(pub u8);
 impl flussab_aiger::Lit for C100 {
     const MAX_CODE: usize = 100;
